@@ -1,6 +1,7 @@
 import SafeC.Driver
 import SafeC.DispatchAll
 import SafeC.DriverHandlers
+import SafeC.DriverFmt
 /-!
 `safec_model`: reads op lines (see harness/hx.c), runs the Lean model of the named entry point
 on the same memory layout, prints the model's observation line.
@@ -21,6 +22,8 @@ def processLine (line : String) : String := Id.run do
   let id := (lookup m "id").getD "?"
   if let some ops := lookup m "ops" then
     if (lookup m "fn").isNone then return handlersLine id ops
+  if let some f := lookup m "fmtq" then
+    if (lookup m "fn").isNone then return fmtLine id f
   let some fn := lookup m "fn" | return s!"id={id} err=badop"
   let slack := (lookup m "slack").getD "1" != "0"
   let mut regs : Array Region := #[]
